@@ -242,23 +242,6 @@ Qed.
 
 (* ---------------------------------------------------------------- the position cache *)
 
-Definition nm (f : file) : Z * Z := (f_day f, f_seq f).
-Definition pair_lt (a b : Z * Z) : Prop := fst a < fst b \/ (fst a = fst b /\ snd a < snd b).
-
-Lemma name_lt_pair a b : name_lt a b <-> pair_lt (nm a) (nm b).
-Proof. unfold name_lt, file_ltb, pair_lt, nm. cbn [fst snd]. lia. Qed.
-
-(* the cached position (file name, idx offset, second) is either unusable or sound: its offset is a
-   multiple of 16, its file is not newer than the current one, and every group of every older
-   file is before the cached second *)
-Definition CInv (names : list (Z * Z)) (G : list (list group)) (cur : Z * Z) (st : sstate) : Prop :=
-  match s_name st with
-  | None => True
-  | Some n =>
-      ~ pair_lt cur n /\ (exists j, s_off st = 16 * Z.of_nat j) /\
-      Forall2 (fun n' gs => pair_lt n' n -> Forall (fun s => s < s_sec st) (map fst gs)) names G
-  end.
-
 Lemma index_find d s : forall fs acc f, find (name_is d s) fs = Some f ->
   exists i, index_of_name d s fs acc = Some (acc + i)%nat /\ nth_error fs i = Some f /\ name_is d s f = true.
 Proof.
@@ -328,9 +311,6 @@ Proof.
 Qed.
 
 (* ---------------------------------------------------------------- the whole search *)
-
-Definition cache_rel (n : Z * Z) (sec : Z) (n' : Z * Z) (gs : list group) : Prop :=
-  pair_lt n' n -> Forall (fun s => s < sec) (map fst gs).
 
 Lemma older_all n sec (l : list file) (vl : list view) : Forall2 (fun _ _ => True) l vl ->
   Forall (fun v => Forall (fun s => s < sec) (map fst (vg v))) vl ->
